@@ -18,6 +18,19 @@ var retryAPIs = []struct{ API, Req, Base string }{
 // Returns edges (block, k) where v != nil holds.
 func nonNilEdges(f *ssa.Function, v ssa.Value) []ifEdge {
 	var out []ifEdge
+	// the library's error wrappers preserve nil-ness (checked: nonnil.go), so a test of wrapError(v, …) is a test of v
+	cands := map[ssa.Value]bool{v: true}
+	if c := curCtx; c != nil && c.wrapOK && v != nil {
+		if refs := v.Referrers(); refs != nil {
+			for _, u := range *refs {
+				if k, ok := u.(*ssa.Call); ok && len(k.Call.Args) > 0 && k.Call.Args[0] == v {
+					if g := c.StaticCalleeOf(&k.Call); g != nil && c.isWrapFn(g) {
+						cands[k] = true
+					}
+				}
+			}
+		}
+	}
 	for _, b := range f.Blocks {
 		iff := blockIf(b)
 		if iff == nil {
@@ -28,9 +41,9 @@ func nonNilEdges(f *ssa.Function, v ssa.Value) []ifEdge {
 			continue
 		}
 		var other ssa.Value
-		if bin.X == v {
+		if cands[bin.X] {
 			other = bin.Y
-		} else if bin.Y == v {
+		} else if cands[bin.Y] {
 			other = bin.X
 		} else {
 			continue
